@@ -31,6 +31,8 @@ var sizeShapes = []sizeShape{
 	{name: "value on a branch node (its path is a proper prefix of another)", big: "aa", rest: []string{"aaab", "aab0"}},
 	{name: "leaf with a 1-character path under a deep branch", big: h64a, rest: []string{h64b}},
 	{name: "leaf with an empty path under a branch", big: "aaab", rest: []string{"aaaa", "aaac"}},
+	{name: "single leaf, 80-character path", big: h64a + "0123456789abcdef"},
+	{name: "130-character path next to one differing in its last character", big: h64a + h64a + "a1", rest: []string{h64a + h64a + "a2"}},
 }
 
 // sizedValue is a printable value of length n whose every byte depends on its position (a truncated,
@@ -637,4 +639,133 @@ func byteSweep(rep *rt.Report, name string, kinds []StoreKind, version int64, ex
 	rep.Add("evaluations", n)
 	rep.Add("distinct_nontrivial", n)
 	rep.Sub[run] = map[string]any{"cases": n, "rule": fmt.Sprintf("every byte value 0..255 as a one-byte value and as first / middle / last byte of a longer value, on %d node shapes that carry a value, stores %v", len(sizeShapes), kinds)}
+}
+
+// ---- prefix-length sweep: two paths that share a prefix of EVERY length 0..40 and then differ, and a
+// third path that leaves the shared prefix at every earlier position; both insertion orders; then deletes.
+// (The BFS paths have at most 4 characters, the size-sweep paths share 62 or 129.)
+func prefixSweep(rep *rt.Report, name string, kind StoreKind, version int64, extra extraOracle) {
+	run := "prefix-sweep/" + name
+	const common = "0123456789abcdef0123456789abcdef0123456789abcdef0123456789abcdef0123456789abcdef0123456789abcdef"
+	even := func(p string) string {
+		if len(p)%2 == 1 {
+			return p + "0"
+		}
+		return p
+	}
+	type pc struct{ l, j, order int } // shared length, divergence position of the third path (-1 none), insertion order
+	runCase := func(c pc) (fail string) {
+		defer func() {
+			if r := recover(); r != nil {
+				fail = clip(fmt.Sprintf("panic: %v", r))
+			}
+		}()
+		p1 := even(common[:c.l] + "a1")
+		p2 := even(common[:c.l] + "b2")
+		paths := []string{p1, p2}
+		if c.j >= 0 {
+			paths = append(paths, even(common[:c.j]+"c3"+common[c.j+2:c.l+2]))
+		}
+		ins := append([]string{}, paths...)
+		switch c.order {
+		case 1:
+			ins[0], ins[1] = ins[1], ins[0]
+		case 2:
+			ins[0], ins[len(ins)-1] = ins[len(ins)-1], ins[0]
+		}
+		w := NewWorld(kind, version)
+		defer w.Close()
+		check := func(when string) string {
+			if f := w.Observe(paths); f != "" {
+				return when + ": " + f
+			}
+			if extra != nil {
+				if f := extra(w); f != "" {
+					return when + ": " + f
+				}
+			}
+			return ""
+		}
+		for i, p := range ins {
+			if f := w.Apply(Op{K: 'I', P: p, V: fmt.Sprintf("v%d", i)}); f != "" {
+				return fmt.Sprintf("Insert(%q): %s", p, f)
+			}
+			if f := check(fmt.Sprintf("after Insert(%q)", p)); f != "" {
+				return f
+			}
+		}
+		if kind != Mem {
+			if f := w.Apply(Op{K: 'F'}); f != "" {
+				return f
+			}
+		}
+		for _, p := range ins[:len(ins)-1] {
+			if f := w.Apply(Op{K: 'D', P: p}); f != "" {
+				return fmt.Sprintf("Delete(%q): %s", p, f)
+			}
+			if f := check(fmt.Sprintf("after Delete(%q)", p)); f != "" {
+				return f
+			}
+		}
+		return ""
+	}
+	if rp := rt.Replay; rp != nil {
+		if rp.Run != run {
+			return
+		}
+		c := pc{int(rp.Raw["shared"].(float64)), int(rp.Raw["third"].(float64)), int(rp.Raw["order"].(float64))}
+		f1, f2 := runCase(c), runCase(c)
+		fmt.Printf("REPLAY %s %+v\n", run, c)
+		if f1 != f2 {
+			rt.HarnessError("replay is not deterministic: %q vs %q", f1, f2)
+		}
+		if f1 != "" {
+			rep.Violate(fmt.Sprintf("[%s] two paths sharing %d characters, third path leaving at %d, order %d => %s", run, c.l, c.j, c.order, f1), nil)
+		}
+		return
+	}
+	var cases []pc
+	for l := 0; l <= 72; l++ {
+		for order := 0; order < 3; order++ {
+			cases = append(cases, pc{l, -1, order})
+			for j := 0; j+2 <= l; j++ {
+				cases = append(cases, pc{l, j, order})
+			}
+		}
+	}
+	var next int64
+	var mu sync.Mutex
+	reported := 0
+	var wg sync.WaitGroup
+	for i := 0; i < rt.Workers(); i++ {
+		wg.Add(1)
+		go func() {
+			defer wg.Done()
+			for {
+				j := int(atomic.AddInt64(&next, 1)) - 1
+				if j >= len(cases) {
+					return
+				}
+				c := cases[j]
+				if f := runCase(c); f != "" {
+					mu.Lock()
+					if reported < 3 {
+						reported++
+						rep.Violate(fmt.Sprintf("[%s] two paths sharing %d characters, third path leaving at %d, order %d => %s", run, c.l, c.j, c.order, f), map[string]any{"run": run, "shared": c.l, "third": c.j, "order": c.order})
+					} else {
+						rep.Add("violations_suppressed_duplicates", 1)
+					}
+					mu.Unlock()
+				}
+			}
+		}()
+	}
+	wg.Wait()
+	n := len(cases)
+	rep.Add("states", n)
+	rep.Add("transitions", 5*n)
+	rep.Add("traces_validated_against_impl", 5*n)
+	rep.Add("evaluations", 5*n)
+	rep.Add("distinct_nontrivial", n)
+	rep.Sub[run] = map[string]any{"cases": n, "rule": fmt.Sprintf("two paths sharing a prefix of every length 0..72 (total path lengths 2..74 characters), a third path leaving that prefix at every earlier position, three insertion orders, store %v; judged after every insert and every delete", kind)}
 }
